@@ -24,7 +24,12 @@
   Location it is given, Windows separators.
 -/
 import Flamego.Base.Bytes
+import Flamego.Gen.ConstFacts
 namespace Flamego.Static
+
+-- the literals of static.go, read from the source on every run (Gen/ConstFacts); `simp` sees
+-- through them, so a proof that needs a documented value breaks by name when the literal changes
+attribute [simp] Gen.staticDefaultIndex Gen.staticMethods Gen.staticRedirectStatus Gen.staticNotModifiedStatus
 
 /-- ASCII literal as bytes (reduces by `decide`, unlike `String.toUTF8`). -/
 def asc (s : String) : Bytes := s.toList.map (fun c => UInt8.ofNat c.toNat)
@@ -148,7 +153,7 @@ structure Opts where
 def normPrefix (p : Bytes) : Bytes := if p = [] then [] else slash :: trimSlashes p
 
 /-- `if opts.Index == "" { opts.Index = "index.html" }` -/
-def normIndex (i : Bytes) : Bytes := if i = [] then asc "index.html" else i
+def normIndex (i : Bytes) : Bytes := if i = [] then Gen.staticDefaultIndex else i
 
 inductive Outcome
   | silent                              -- plain `return`: nothing written, the chain goes on
@@ -164,8 +169,8 @@ inductive Wr
 
 def Outcome.writes : Outcome → List Wr
   | .silent => []
-  | .redirect _ => [.header (asc "Location"), .status 302]
-  | .notModified _ _ => [.header (asc "ETag"), .status 304]
+  | .redirect _ => [.header (asc "Location"), .status Gen.staticRedirectStatus]
+  | .notModified _ _ => [.header Gen.staticETagHeader, .status Gen.staticNotModifiedStatus]
   | .serve _ id => [.status 200, .content id]
 
 structure Result where
@@ -173,8 +178,9 @@ structure Result where
   opens : List Bytes      -- the names passed to `opt.FileSystem.Open`, in order
   deriving DecidableEq, Repr
 
-/-- `Method != GET && Method != HEAD → return` -/
-def isGetHead (m : Bytes) : Bool := m = asc "GET" || m = asc "HEAD"
+/-- `Method != GET && Method != HEAD → return`: the method is one of the constants the test names
+    (`Gen.staticMethods`, documented: GET and HEAD) -/
+def isGetHead (m : Bytes) : Bool := Gen.staticMethods.contains m
 
 /-- The prefix filter (already normalised prefix): `none` = `return`.
     ```
